@@ -624,7 +624,9 @@ func (ex *Explorer) record(rec *PathRecord, ps *pathState, funcs map[string]int)
 	for k, v := range funcs {
 		ex.FuncsHit[k] += v
 	}
-	if ex.MaxPaths > 0 && ex.Paths >= ex.MaxPaths || !ex.Deadline.IsZero() && time.Now().After(ex.Deadline) {
+	// non-termination candidates are expensive (each burns the whole step budget): after a few of
+	// them the run stops; it is then truncated, i.e. inconclusive unless a candidate is confirmed natively
+	if ex.MaxPaths > 0 && ex.Paths >= ex.MaxPaths || !ex.Deadline.IsZero() && time.Now().After(ex.Deadline) || ex.Outcomes["budget"] >= 12 {
 		if len(ex.work) > 0 || ex.active > 1 {
 			ex.Truncated = true
 		}
